@@ -285,6 +285,18 @@ pub fn run(a: &RunArgs) -> i32 {
                         } else {
                             m.errors.push(format!("worker {i} died ({st}); the in-flight case does not reproduce it: {tail}"));
                         }
+                    } else if a.prop == "C08" && pl.engine == "stress" && tail.contains("LIBRARY PANIC") {
+                        // a panic raised by the library under uncontrolled real threads: the
+                        // message is the witness (it may not reproduce)
+                        let line = stderr.lines().find(|l| l.contains("LIBRARY PANIC")).unwrap_or("").to_string();
+                        m.violations.push(Found {
+                            property: "C08".into(),
+                            message: format!("[C08] {line}"),
+                            engine: pl.engine.to_string(),
+                            case: serde_json::json!({"workload": "stress", "worker": i}),
+                            trace: vec!["uncontrolled real threads: this counterexample may not reproduce on replay; the message above is the witness".into()],
+                            avoid: vec![],
+                        });
                     } else {
                         m.errors.push(format!("worker {i} died ({st}) outside a case: {tail}"));
                     }
